@@ -600,10 +600,13 @@ fn encoder_limits(plan: &Plan) -> Vec<Violation> {
                 (a, vec![])
             };
             let ctx = sst::Context::<$n>::new(key, ikeys, kind, None);
-            let session = sst::Session::<$n>::new(Mode::Client, sst::Identity::default(), Some(addr.clone()));
+            // (the session is handed over as `&mut`: that coerces to `&` where the encoder takes a shared reference, so the harness
+            // builds against either signature)
+            #[allow(unused_mut)]
+            let mut session = sst::Session::<$n>::new(Mode::Client, sst::Identity::default(), Some(addr.clone()));
             let mut codec = sst::AEADCipherCodec::<$n>::default();
             let mut dst = BytesMut::new();
-            codec.encode(&ctx, &session, BytesMut::from(&item[..]), &mut dst).map(|_| dst.to_vec()).map_err(|e| e.to_string())
+            codec.encode(&ctx, &mut session, BytesMut::from(&item[..]), &mut dst).map(|_| dst.to_vec()).map_err(|e| e.to_string())
         }};
     }
     let wire = if key_len(&cfg.cipher) == 16 { run!(16) } else { run!(32) };
@@ -1051,7 +1054,16 @@ pub fn gen_c03_ustream(seed: u64, _thorough: bool) -> Plan {
     let targets: Vec<(Option<String>, [u8; 4], u16)> = (0..n_targets)
         .map(|i| (if g.chance(50) { Some(format!("t{i}-{}.ustream.c03.test", g.range(0, 99))) } else { None }, [127, 0, 34, 1 + i as u8], if same_port { p0 } else { g.range(1024, 60000) as u16 }))
         .collect();
-    let sends: Vec<(usize, usize)> = (0..g.range(3, 9)).map(|_| (g.below(n_targets as u64) as usize, g.range(1, 1200) as usize)).collect();
+    let mut sends: Vec<(usize, usize)> = (0..g.range(3, 9)).map(|_| (g.below(n_targets as u64) as usize, g.range(1, 1200) as usize)).collect();
+    if proto == Proto::Vmess && g.chance(50) {
+        // a datagram that does not fit into one VMess chunk (it may be dropped whole) in the middle of the sequence: what the
+        // client sends behind it on the same connection is still a stream the reference can read
+        let at = g.range(1, sends.len() as u64 - 1) as usize;
+        let t = sends[at - 1].0;
+        sends.insert(at, (t, 2000 + g.below(900) as usize));
+        let again = g.range(1, 1200) as usize;
+        sends.insert(at + 1, (t, again));
+    }
     Plan {
         property: "C03".into(),
         scenario: "interop-dgram-in-stream".into(),
